@@ -310,6 +310,33 @@ func init() {
 			}
 		}
 		rec(0)
+		// production coverage: one shortest sentence per production, when longer than the enumeration bound
+		for _, sent := range c.CoverSentences() {
+			if len(sent) <= n || st.enough() {
+				continue
+			}
+			st.add("cover_sentences", 1)
+			seq = nil
+			viable = []bool{true}
+			e = c.NewEarley()
+			for _, t := range sent {
+				seq = append(seq, t)
+				viable = append(viable, viable[len(viable)-1] && e.Extend(t))
+			}
+			check()
+			// and the same sentence cut short / with its last token doubled (non-sentences of that length)
+			if len(seq) > 1 {
+				last := seq[len(seq)-1]
+				seq = seq[:len(seq)-1]
+				viable = viable[:len(viable)-1]
+				e.Pop()
+				check()
+				seq = append(seq, last, last)
+				viable = append(viable, viable[len(viable)-1] && e.Extend(last))
+				viable = append(viable, viable[len(viable)-1] && e.Extend(last))
+				check()
+			}
+		}
 	}
 }
 
